@@ -3,7 +3,9 @@
    (tag, input, expected). The encodings are mirrored in /verif/tools/vlib.py. *)
 From Coq Require Import ZArith NArith List Bool.
 Import ListNotations.
-From AV Require Import model.Syntax model.Lexer model.Grammar.
+From Coq Require Import QArith.
+From AV Require Import model.Syntax model.Lexer model.Grammar model.Literal model.Display model.Rat model.UnitTypes model.Map
+  model.Units model.Compound model.UnitWord model.Eval.
 Open Scope Z_scope.
 
 Definition zs_of_chars (s : list chr) : list Z := map Z.of_N s.
@@ -28,9 +30,94 @@ Definition obs_lex_parse (s : list chr) : list Z :=
   Z.of_nat (length ts) :: dump_tokens ts ++
   match parse_root ts with Some f => 1 :: dump_forest f | None => [0] end.
 
+
+(* tag 2: Rational::display; input = n, d, limit, exponent limit; output = the characters *)
+Definition obs_display (input : list Z) : list Z :=
+  match input with
+  | [n; d; limit; el] => zs_of_chars (display (Qmake n (Z.to_pos d)) (Z.to_nat limit) (Z.to_nat el))
+  | _ => [-1]
+  end.
+
+(* tag 3: str::parse::<Rational>; input = bytes; output = 1, reduced numerator, denominator | 0 *)
+Definition obs_from_str (input : list Z) : list Z :=
+  match from_str input with
+  | Literal.Ok num scale => let '(n, d) := reduced (to_Q num scale) in [1; n; d]
+  | Literal.Err => [0]
+  end.
+
+(* ---- tag 4: the whole pipeline ---- *)
+Definition dump_compound (c : compound) : list Z :=
+  Z.of_nat (length c) :: flat_map (fun us => [Z.of_N (fst us); fst (snd us); snd (snd us)]) c.
+Definition ekind_code (k : ekind) : list Z :=
+  match k with
+  | SyntaxError => [0] | DivideByZero => [1] | LookupError => [2] | IllegalOperation => [3] | ConversionNotPossible => [4]
+  | IllegalCast => [5] | ParseRationalError => [6] | BadNumber => [7] | Unexpected k => [8; Z.of_N (kind_code k)]
+  | Expected a e => [9; Z.of_N (kind_code a); Z.of_N (kind_code e)] | Missing => [10] | IllegalUnit => [11]
+  | MissingFunction => [12] | ArgumentMismatch e a => [13; Z.of_nat e; Z.of_nat a] | BadArgument => [14] | NonFinite => [15]
+  | MissingNode => [16] | PrefixMismatch => [17] | IllegalUnitNumber => [18] | IllegalPowerUnit => [19]
+  | IllegalPowerNonInteger => [20] | IllegalPowerTooLarge => [21]
+  end.
+Definition dump_result (r : res numeric) : list Z :=
+  match r with
+  | Ok (v, u) => let '(n, d) := reduced v in 0 :: n :: d :: dump_compound u
+  | Error (s, e) k => 1 :: Z.of_N s :: Z.of_N e :: ekind_code k
+  | Panic w => [2; Z.of_N w]
+  | Opaque => [3]
+  end.
+
+(* decoding of the fact oracle: count, then per phrase: length, characters, outcome (0 | 1 | 2 n d k (key power prefix)*k) *)
+Fixpoint take_units (k : nat) (l : list Z) : compound * list Z :=
+  match k with
+  | O => ([], l)
+  | S k' => match l with
+            | key :: p :: e :: r => let '(c, r') := take_units k' r in ((Z.to_N key, (p, e)) :: c, r')
+            | _ => ([], l)
+            end
+  end.
+Fixpoint take_facts (fuel : nat) (idx : Z) (l : list Z) : db * list Z :=
+  match fuel with
+  | O => ([], l)
+  | S f =>
+      match l with
+      | len :: r =>
+          let phrase := chars_of_zs (firstn (Z.to_nat len) r) in
+          let r1 := skipn (Z.to_nat len) r in
+          match r1 with
+          | 0 :: r2 => let '(d, r3) := take_facts f (idx + 1) r2 in ((phrase, NotFound) :: d, r3)
+          | 1 :: r2 => let '(d, r3) := take_facts f (idx + 1) r2 in ((phrase, LookupFailed) :: d, r3)
+          | 2 :: n :: dn :: k :: r2 =>
+              let '(c, r3) := take_units (Z.to_nat k) r2 in
+              let '(d, r4) := take_facts f (idx + 1) r3 in ((phrase, Found idx (Qmake n (Z.to_pos dn)) c) :: d, r4)
+          | _ => ([], l)
+          end
+      | [] => ([], l)
+      end
+  end.
+
+Definition query (debug describe : bool) (facts : db) (s : list chr) : list (res numeric) * list (list chr) :=
+  match parse_root (tokens s) with
+  | None => ([Panic 3], [])
+  | Some f => eval_roots debug facts describe (skip_tokens (annotate_forest 0 f)) []
+  end.
+
+Fixpoint phrase_index (d : db) (s : list chr) (i : Z) : Z :=
+  match d with [] => -1 | (p, _) :: r => if chars_eqb p s then i else phrase_index r s (i + 1) end.
+
+Definition obs_query (input : list Z) : list Z :=
+  match input with
+  | dbg :: desc :: nfacts :: rest =>
+      let '(facts, src) := take_facts (Z.to_nat nfacts) 0 rest in
+      let '(rs, ds) := query (negb (dbg =? 0)) (negb (desc =? 0)) facts (chars_of_zs src) in
+      Z.of_nat (length rs) :: flat_map dump_result rs ++ Z.of_nat (length ds) :: List.map (fun p => phrase_index facts p 0) ds
+  | _ => [-1]
+  end.
+
 Definition run_case (tag : Z) (input : list Z) : list Z :=
   match tag with
   | 1 => obs_lex_parse (chars_of_zs input)
+  | 2 => obs_display input
+  | 3 => obs_from_str input
+  | 4 => obs_query input
   | _ => [-1]
   end.
 
